@@ -436,6 +436,13 @@ def run(rep):
     rep.guarded("R-C13-order", rule_order)
     rep.guarded("R-C13-report", rule_report)
     rep.guarded("R-C13-args", rule_args)
+    # "shorter than required": the lengths validate_buffers enforces must be the ones the call is documented to need,
+    # input_frames_next() / output_frames_next(), and the ones the body actually reads and writes (shared with C04)
+    import C04
+    for t in RESAMPLERS:
+        rep.guarded("R-C04-agree", lambda r, t=t: C04.rule_agree(r, t))
+    rep.floor("R-C04-agree", 14)
+    rep.clause("R-C04-agree", "the minimum lengths handed to validate_buffers equal input_frames_next() / output_frames_next() and the slice bounds the body uses (shared with C04)")
     rep.guarded("R-C13-ctor", rule_ctor)
     # "instead of panicking": explicit panic sites anywhere in the crate (constructors call make_interpolator / make_sincs before validating) - shared with C03
     import C03
